@@ -305,6 +305,15 @@ pub fn gen_texts(seed: u64, n: usize) -> Vec<J> {
         }
     }
     out.push(json!({"kind":"text","text":"reduce([\"b\", \"a\"], (acc, w) => acc + [uppercase(w)], [])\nreduce([1, 2, 3], (acc, w, i) => {...acc, [to_string(w)]: i}, {})\nzip([1, 2], [\"a\", \"b\"]) via (p => {n: p[0], s: p[1] + \"\"})","inputs":J::Null}));
+    // parameterless anonymous functions whose body assigns (in argument position, in a list, behind a conditional), with and
+    // without captured values and inputs; strings, lists and records spread into records, lists and argument lists
+    for text in ["output r = (() => (y = inputs.a + 1))()", "k = 2\n(() => (y = k + inputs.a))()", "steps = [() => (z = inputs.a), () => [w = 1, w]]\nsteps[0]()\nsteps[1]()",
+                 "mk = () => () => max(q = inputs.a, 0)\nmk()()", "t = if true then (() => (v = #a))() else 0", "[1, 2] via (x => (() => (u = x + inputs.a))())",
+                 "{...\"ab\"}", "w = \"xy\"\noutput r = {...w, word: w}", "{...inputs.s, ...[7, 8], ...{k: 1}}", "[...inputs.s, ...\"\", ...{a: 1}]", "max(...inputs.s)", "map([\"ab\", \"\"], w => {...w})",
+                 "do {\n  s = \"pq\"\n  return {...s, ...[s]}\n}"] {
+        out.push(json!({"kind":"text","text":text,"inputs":"{\"a\": 1, \"s\": \"\u{e9}z\"}"}));
+        out.push(json!({"kind":"text","text":text,"inputs":J::Null}));
+    }
     for lo in [0usize, 40, 80, 120, 160] {
         let text: Vec<String> = (lo..lo + 45).map(|k| format!("{k}!")).collect();
         out.push(json!({"kind":"text","text":format!("output fs = [{}]\n(-3)!\n2.5!\n171! + 1\n1000!", text.join(", ")),"inputs":J::Null}));
